@@ -116,6 +116,8 @@ def record_static(case):
             rec["closed"] = [bool(len(r[0]) >= 2 and (r[0][0] == r[0][-1]).all()) for r in rows]
         if crs_ok is not None:
             rec["crs_ok"] = crs_ok
+        if kind == "gdf":
+            rec["frame_ok"] = type(obj).__module__.split(".")[0] == X.ENGINES[ev["eng"]]
         if ev["act"].startswith("Data"):
             col = "ta" if kind == "gdf" else "arr"
             rec["data"] = data.get(col, [])
@@ -172,6 +174,7 @@ def part_static(ctx, rng):
     ents = catalog.entries(name=NAMES, rot=rots, cut=cuts)
     if not thorough:
         ents = [e for i, e in enumerate(ents) if i % 2 == 0 or (e["name"].endswith("_split") and e["rot"] == 0)]
+        ents += catalog.entries(name="truncated_cube_split", rot=22, cut=0)      # has a non-crossing face lying on one parallel
     elif len(ents) > 240:
         keep = [e for e in ents if e["rot"] in (0, 7, 18)]
         rest = [e for e in ents if e["rot"] not in (0, 7, 18)]
@@ -187,7 +190,18 @@ def part_static(ctx, rng):
             d["closed"] = False
             d["name"] = e["name"] + "~kept"
             derived.append(d)
-    gen.update(run_gen(ctx, derived, len(ents), "sub-meshes without crossers"))
+    # ... and grids on which EVERY face crosses (nothing is kept by 'exclude'): the sub-mesh of the crossing faces
+    n_all = 0
+    for mi, e in enumerate(list(ents), start=1):
+        c0 = gen[(mi, 0, 1)]
+        if e["cut"] == 0 and not c0["polecorner"] and not c0["tie"] and len(c0["cross"]) >= 2 and n_all < (12 if thorough else 2) and len(e["sizes"]) >= (2 if n_all else 1):
+            d = dict(e)
+            d["faces"] = [e["faces"][f] for f in sorted(c0["cross"])]
+            d["closed"] = False
+            d["name"] = e["name"] + "~crossing"
+            derived.append(d)
+            n_all += 1
+    gen.update(run_gen(ctx, derived, len(ents), "sub-meshes without crossers / with crossers only"))
     ents = ents + derived
     cases, skipped = [], {"pole-corner": 0, "tie": 0, "pole-touch": 0}
     for mi, e in enumerate(ents, start=1):
@@ -247,6 +261,10 @@ def part_static(ctx, rng):
         g0 = gen[(c["mi"], 0, c["sv"])]
         n_cross += 1 if g0["cross"] else 0
         n_nocross += 0 if g0["cross"] else 1
+    n_flat = sum(1 for c in cases if set(gen[(c["mi"], 0, c["sv"])]["flat"]) - set(gen[(c["mi"], 0, c["sv"])]["cross"]))
+    n_none = sum(1 for c in cases if not gen[(c["mi"], 0, c["sv"])]["kept"])
+    if n_flat == 0 or n_none == 0:
+        raise Machinery("static cases must include a non-crossing face on one parallel (%d) and a grid on which every face crosses (%d)" % (n_flat, n_none))
     if n_cross == 0 or n_nocross == 0:
         raise Machinery("static cases must include grids with and without crossing faces (%d / %d)" % (n_cross, n_nocross))
     for rec in recs:
@@ -299,7 +317,7 @@ def part_static(ctx, rng):
             if bad:
                 ctx.violation(a["id"], "SplitAreaCovers", detail={"faces": bad[:5], "got": [got[i] for i in bad[:5]], "expected": [[ex[i] for ex in exps] for i in bad[:5]]},
                               replay={"case": a["id"], "nodes": e["nodes"], "faces": e["faces"]}, sig=sig_of_static(a["id"], "SplitAreaCovers"))
-    ctx.note("static", {"meshes": len(ents), "cases": len(cases), "records": len(recs), "with_crossers": n_cross, "without_crossers": n_nocross,
+    ctx.note("static", {"meshes": len(ents), "cases": len(cases), "records": len(recs), "with_crossers": n_cross, "without_crossers": n_nocross, "every_face_crosses": n_none, "flat_noncrossing_face": n_flat,
                         "skipped_by_spec": skipped, "unjudged_records": len(unjudged), "area_checks": n_area,
                         "failing_records": len(failed), "raises": len(errs)})
     for rec in recs[1:3]:
@@ -322,7 +340,9 @@ def gen_histories(ctx, what, **kw):
     """Histories emitted by TLC from PlotCache(MechObserved): list of (events, predicted bad sets per step)."""
     sim = kw.pop("simulate", None)
     depth = kw.pop("depth", None)
-    cfg = pc_cfg("MechObserved", keep=True, invs=["TypeOK", "Emit"], **kw)
+    # the histories are the same whatever the mechanism; MechHistoric (every repaired choice at once) only ranks them:
+    # TracePlot recomputes what MechObserved predicts for each recorded trace
+    cfg = pc_cfg("MechHistoric", keep=True, invs=["TypeOK", "Emit"], **kw)
     extra = {}
     if sim:
         extra = {"simulate": sim, "depth": depth, "seed": ctx.seed + 7}
@@ -382,18 +402,24 @@ def part_history(ctx, rng, ents, gen, cases):
     hists = {}
 
     def add(hs, cap_clean=None):
-        clean = []
+        """all ranked-bad histories (per stratum at most cap_clean // 8 when a cap is given), a sample of the clean ones"""
+        clean, strata = [], {}
         for evs, bads in hs:
             k = hist_key(evs)
             if k in hists:
                 continue
-            if cap_clean is not None and not any(bads[-1:]):
+            if cap_clean is None:
+                hists[k] = (evs, bads)
+            elif not any(bads[-1:]):
                 clean.append((k, evs, bads))
             else:
-                hists[k] = (evs, bads)
-        if clean:
+                strata.setdefault((evs[-1]["act"], tuple(bads[-1])), []).append((k, evs, bads))
+        if cap_clean is not None:
             if cap_clean < len(clean):
                 clean = rng.sample(clean, cap_clean)
+            for sk in sorted(strata):
+                grp = strata[sk]
+                clean += grp if len(grp) <= cap_clean // 8 else rng.sample(grp, cap_clean // 8)
             for k, evs, bads in clean:
                 hists[k] = (evs, bads)
 
@@ -442,8 +468,16 @@ def part_history(ctx, rng, ents, gen, cases):
         keys = sorted(hists)
         pred = [k for k in keys if any(hists[k][1])]
         rest = [k for k in keys if not any(hists[k][1])]
-        keep_pred = rng.sample(pred, min(len(pred), 1500))
-        keep = set(keep_pred) | set(rng.sample(rest, min(len(rest), 2500)))
+        # stratified: per (kind of the failing call, clauses, length) so that every past mechanism stays represented
+        strata = {}
+        for k in pred:
+            evs, bads = hists[k]
+            q = max(i for i, b in enumerate(bads) if b)
+            strata.setdefault((evs[q]["act"], tuple(bads[q]), len(evs)), []).append(k)
+        keep = set()
+        for sk in sorted(strata):
+            keep |= set(rng.sample(strata[sk], min(len(strata[sk]), 120)))
+        keep |= set(rng.sample(rest, min(len(rest), 1500)))
 
         def sandwich(evs):
             # conversion; the caller edits what it got; the same conversion again (a cache hit if anything is cached)
@@ -531,7 +565,7 @@ def part_history(ctx, rng, ents, gen, cases):
     pred_total = sum(1 for k in keys for b in hists[k][1] if b)
     ctx.note("history", {"alphabet_sizes": n_alpha, "histories_replayed": len(jobs), "steps": sum(len(j["events"]) for j in jobs),
                          "by_length": {str(n): sum(1 for j in jobs if len(j["events"]) == n) for n in (1, 2, 3, 5)},
-                         "failing_step_clauses": n_fail, "steps_predicted_bad_by_MechObserved": pred_total,
+                         "failing_step_clauses": n_fail, "steps_ranked_bad_by_MechHistoric": pred_total,
                          "model_drift_predicted_but_not_observed": len(drift), "meshes": [catalog.eid(e) for e in pool],
                          "distinct_object_classes": len(cls)})
     if drift:
